@@ -635,3 +635,167 @@ func TestC03StartFailure(t *testing.T) {
 		}
 	})
 }
+
+// TestC01AcrossFailedServe (bubble): a Serve whose k-th subscription is refused, with a With
+// callback accepted while Serve was still subscribing and suspended mid-execution. The
+// service is served again and given callbacks of the same group: the old callback excludes
+// them as long as it executes (C01), and Serve does not return before it has finished (C03,
+// reported under C01 here as well because that is what makes the overlap possible).
+func TestC01AcrossFailedServe(t *testing.T) {
+	ev := evid.For("C01")
+	rapid.Check(t, func(rt *rapid.T) {
+		workers := rapid.SampledFrom([]int{1, 2, 4}).Draw(rt, "workers")
+		k := rapid.IntRange(1, 4).Draw(rt, "failNth")
+		via := rapid.SampledFrom([]string{"with", "withgroup", "withresource"}).Draw(rt, "via")
+		second := rapid.SampledFrom([]string{"with", "withgroup", "request"}).Draw(rt, "second")
+		var msg string
+		overlapPossible := false
+		func() {
+			defer func() {
+				if v := recover(); v != nil {
+					msg = fmt.Sprintf("bubble ended abnormally (goroutines left blocked?): %v", v)
+				}
+			}()
+			synctest.Test(t, func(*testing.T) {
+				s := res.NewService("svc")
+				s.SetWorkerCount(workers)
+				s.SetLogger(nil)
+				occ, maxOcc := 0, 0
+				var mu sync.Mutex
+				enter := func() {
+					mu.Lock()
+					occ++
+					if occ > maxOcc {
+						maxOcc = occ
+					}
+					mu.Unlock()
+				}
+				leave := func() { mu.Lock(); occ--; mu.Unlock() }
+				s.Handle("g.$id", res.Group("grp"), res.Access(res.AccessGranted), res.Call("do", func(r res.CallRequest) {
+					enter()
+					leave()
+					r.OK(nil)
+				}))
+				bad := fakeconn.New()
+				atFail := make(chan struct{})
+				proceed := make(chan struct{})
+				fired := false
+				bad.FailSubscribe = func(subject string, n int) error {
+					if n == k {
+						fired = true
+						close(atFail)
+						<-proceed
+						return fmt.Errorf("injected subscribe failure")
+					}
+					return nil
+				}
+				ret := make(chan error, 2)
+				go func() { ret <- s.Serve(bad) }()
+				synctest.Wait()
+				if !fired {
+					_ = s.Shutdown()
+					<-ret
+					return
+				}
+				release := make(chan struct{})
+				firstDone := false
+				cb := func() {
+					enter()
+					<-release
+					leave()
+					mu.Lock()
+					firstDone = true
+					mu.Unlock()
+				}
+				accepted := true
+				switch via {
+				case "with":
+					accepted = s.With("svc.g.1", func(res.Resource) { cb() }) == nil
+				case "withgroup":
+					s.WithGroup("grp", func(*res.Service) { cb() })
+				case "withresource":
+					r, err := s.Resource("svc.g.2")
+					if err != nil {
+						accepted = false
+					} else {
+						s.WithResource(r, cb)
+					}
+				}
+				synctest.Wait()
+				mu.Lock()
+				started := occ == 1
+				mu.Unlock()
+				close(proceed)
+				synctest.Wait()
+				if !accepted || !started {
+					// refused as not started: allowed; nothing to overlap with
+					close(release)
+					<-ret
+					return
+				}
+				overlapPossible = true
+				select {
+				case <-ret:
+					msg = "Serve returned after a refused subscription while a With callback it had accepted was still executing"
+				default:
+				}
+				if msg == "" {
+					// Serve is waiting for the callback; let it finish, the rest is the plain re-serve check
+					close(release)
+					<-ret
+				}
+				// the Shutdown the failed Serve started runs on a goroutine of its own
+				synctest.Wait()
+				good := fakeconn.New()
+				served := make(chan struct{})
+				s.SetOnServe(func(*res.Service) { close(served) })
+				go func() { ret <- s.Serve(good) }()
+				synctest.Wait()
+				select {
+				case <-served:
+				default:
+					if msg == "" {
+						msg = "after a Serve that failed on a refused subscription the service cannot be served again"
+					}
+					select {
+					case <-release:
+					default:
+						close(release)
+					}
+					return
+				}
+				switch second {
+				case "with":
+					_ = s.With("svc.g.3", func(res.Resource) { enter(); leave() })
+				case "withgroup":
+					s.WithGroup("grp", func(*res.Service) { enter(); leave() })
+				case "request":
+					good.Deliver("call.svc.g.4.do", "_INBOX.x", []byte(`{}`))
+				}
+				synctest.Wait()
+				mu.Lock()
+				if maxOcc > 1 {
+					msg = fmt.Sprintf("two callbacks of group \"grp\" executed at the same instant: one accepted during the Serve that failed, one (%s) of the next Serve", second)
+				}
+				mu.Unlock()
+				select {
+				case <-release:
+				default:
+					close(release)
+				}
+				synctest.Wait()
+				_ = s.Shutdown()
+				<-ret
+				mu.Lock()
+				if !firstDone && msg == "" {
+					msg = "the callback accepted during the failed Serve never finished"
+				}
+				mu.Unlock()
+			})
+		}()
+		ev.Case(overlapPossible, evid.Hash("acrossfail", workers, k, via, second), "across-failed-serve")
+		if msg != "" {
+			rt.Fatalf("%s (workers %d, failNth %d, via %s)", msg, workers, k, via)
+		}
+	})
+}
